@@ -46,16 +46,19 @@ def magnitude (base : Nat) (s : Bytes) : Option Nat :=
 
 def countDigits (s : Bytes) : Nat := (s.filter fun b => b != 0x5F).length
 
+/-- an optional sign -/
+def stripSign (t : Bytes) : Bool × Bytes :=
+  match t with
+  | 0x2D :: r => (true, r)
+  | 0x2B :: r => (false, r)
+  | r => (false, r)
+
 /-- `int(s, base)` for base 10 or 16 -/
 def pyInt (base : Nat) (s : Bytes) : Option Int :=
-  let t := strip isPySpace s
-  let (neg, t) := match t with
-    | 0x2D :: r => (true, r)
-    | 0x2B :: r => (false, r)
-    | r => (false, r)
-  if base == 10 && countDigits t > 4300 then none else
-  match magnitude base t with
-  | some n => some (if neg then -(Int.ofNat n) else Int.ofNat n)
+  let st := stripSign (strip isPySpace s)
+  if base == 10 && countDigits st.2 > 4300 then none else
+  match magnitude base st.2 with
+  | some n => some (if st.1 then -(Int.ofNat n) else Int.ofNat n)
   | none => none
 
 /-- `httoop.util.integer(number, base)` on `bytes`: `int()` and then a `ValueError` if a SPACE occurs. -/
